@@ -203,3 +203,43 @@ Proof.
   destruct (PL.p_end q <? now); [reflexivity|].
   rewrite Z.gtb_ltb. destruct (wrap64 (PL.p_avail q - PL.p_used q) <? wrap64 (PL.pm_size m * PL.pm_maxp m)); reflexivity.
 Qed.
+
+(* ---------------- RemoveFile (C07): the footprint of a plan-paid file goes back to the plan that paid for it ---------------- *)
+Lemma gen_RemoveFile_spec file_found expires size maxp plan_found used start :
+  gen_RemoveFile file_found expires size maxp plan_found used start
+  = GVal (if file_found
+          then [Ev "remove-proof-records" []]
+                 ++ (if (expires <=? 0) && plan_found
+                     then [Ev "set-plan-used" [let u := wrap64 (used - wrap64 (size * maxp)) in if u <? 0 then 0 else u]] else [])
+                 ++ [Ev "remove-file-primary" []; Ev "remove-file-secondary" []]
+          else []).
+Proof.
+  unfold gen_RemoveFile, i64sub, i64mul. destruct file_found; cbn [negb]; [|reflexivity].
+  destruct (expires <=? 0); cbn [andb gbind app]; [|reflexivity].
+  destruct plan_found; cbn [gbind app]; [|reflexivity].
+  destruct (wrap64 (used - wrap64 (size * maxp)) <? 0); reflexivity.
+Qed.
+
+Theorem plan_remove_file_is_the_interpretation s k :
+  let f := PL.get_file s k in
+  let p := PL.get_plan s (PL.k_owner k) in
+  PL.remove_file s k
+  = match gen_RemoveFile (is_some f) (match f with Some x => PL.f_expires x | None => 0 end)
+            (match f with Some x => PL.f_size x | None => 0 end) (match f with Some x => PL.f_maxp x | None => 0 end)
+            (is_some p) (match p with Some q => PL.p_used q | None => 0 end) (PL.k_start k) with
+    | GVal [] => s
+    | GVal [_; Ev _ [u]; _; _] =>
+        match p with
+        | Some q => {| PL.plans := PL.plans (PL.set_plan s (PL.k_owner k) (PL.with_used q u)); PL.files := adel PL.fkey_eqb (PL.files s) k |}
+        | None => s
+        end
+    | GVal _ => {| PL.plans := PL.plans s; PL.files := adel PL.fkey_eqb (PL.files s) k |}
+    | GPanic => s
+    end.
+Proof.
+  cbv zeta. rewrite gen_RemoveFile_spec. unfold PL.remove_file, PL.plan_paid, PL.footprint.
+  destruct (PL.get_file s k) as [f|]; cbn [is_some]; [|reflexivity].
+  destruct (PL.f_expires f <=? 0); cbn [andb app].
+  - destruct (PL.get_plan s (PL.k_owner k)) as [q|]; cbn [is_some app]; reflexivity.
+  - reflexivity.
+Qed.
